@@ -799,14 +799,22 @@ class Project(MessageHandler):
         # Add gap time (calendar days)
         gap_days: float = total_gap_seconds / 86400
         # Total calendar days (with 50% buffer for weekends/non-working days)
-        total_days_needed: int = int((work_days_needed + gap_days) * 1.5) + 7
+        max_extension_days = 3 * 365
+        try:
+            total_days_needed: int = int((work_days_needed + gap_days) * 1.5) + 7
+        except (OverflowError, ValueError):
+            # an effort with hundreds of digits is 'inf' as a float: as far as allowed
+            total_days_needed = 10**9
 
         # Calculate minimum required end date. The extension is a convenience for work
         # that slightly overruns the declared project; it is capped so that an absurd
         # effort (a typo like 'effort 99999999min') is reported as work that does not
         # fit instead of allocating slot tables for centuries.
-        max_extension_days = 3 * 365
-        latest_end = self.attributes["end"] + timedelta(days=max_extension_days)
+        try:
+            latest_end = self.attributes["end"] + timedelta(days=max_extension_days)
+        except OverflowError:
+            # a project at the very end of the calendar cannot be extended
+            return
         try:
             min_end_date = self.attributes["start"] + timedelta(days=total_days_needed)
         except OverflowError:
